@@ -19,9 +19,9 @@ MANIFEST = {
 INVARIANTS = ["C01_User", "C01_Group"]
 PROPERTIES = []
 QUICK = ['chain2', 'nest_s', 'grp2', 'nestc', 'alw']
-THOROUGH = ['chain2', 'nest_s', 'grp2', 'nestc', 'alw', 'sib', 'upd2', 'diamond', 'clean', 'jpim_s', 'retry_s', 'nest', 'jpim', 'retry']
+THOROUGH = ['chain2', 'nest_s', 'grp2', 'nestc', 'alw', 'sib', 'upd2', 'diamond', 'clean', 'jpim_s', 'retry_s', 'nest', 'jpim', 'retry', 'ffroot', 'ff_s']
 FINDINGS = [("toctou", "chain2", ["C01_User"]), ("ooc", "ooc2", ["C01_User"])]
 
 
 def run(ctx):
-    B.run_property(ctx, "C01", INVARIANTS, PROPERTIES, QUICK, THOROUGH, FINDINGS)
+    B.run_property(ctx, "C01", INVARIANTS, PROPERTIES, QUICK, THOROUGH, FINDINGS, overlap=['chain2', 'grp2'])
